@@ -58,6 +58,7 @@ var (
 	dashZero  = []float64{0.5, 0, 0.5, 1} // contains a zero: means dash 1, gap 1
 	dashLong  = []float64{6, 2}           // longer than every path here when taken in mm
 	dashShort = []float64{0.75}           // odd length: 0.75 on, 0.75 off
+	dashLead  = []float64{0, 1, 2, 3}     // leading zero: gap 1, dash 2, gap 3
 	dashGap   = []float64{6, 9}           // with offset 6.5 every path here lies in the first gap
 	dashOdd   = []float64{6}              // odd length, negative offset: gap [0,1], then a dash of 6
 
@@ -153,6 +154,7 @@ func alphabet() []letter {
 		{"SetStrokeWidth(2)", func(x *exec) { x.ctx.SetStrokeWidth(2) }, func(m *mrun) { m.cur.st.width = 2 }},
 		{"SetStrokeJoiner(RoundJoin)", func(x *exec) { x.ctx.SetStrokeJoiner(canvas.RoundJoin) }, func(m *mrun) { m.cur.st.roundJoin = true }},
 		setDashes("SetDashes(0, 0.5,0,0.5,1)", 0, dashZero),
+		setDashes("SetDashes(0, 0,1,2,3)", 0, dashLead),
 		setDashes("SetDashes(0.5, 6,2)", 0.5, dashLong),
 		setDashes("SetDashes(-0.25, 0.75)", -0.25, dashShort),
 		setDashes("SetDashes(6.5, 6,9)", 6.5, dashGap),
